@@ -499,4 +499,34 @@ PROPS = {
         "assumptions": ["goroutines do not keep an instance across its eviction (the known finding covers the case where they do)"],
         "gen_facts": ["Gen.Locks.entityCalls = statements of cache/bug_cache.go and cache/cached.go that hand the entity to a mutating function, and whether they sit between mu.Lock and mu.Unlock; resolveRechecks"],
     },
+    "C16": {
+        "level_text": "PARTIAL (GitLab bridge only; go-gitlab's client and the HTTP layer are exercised, not modelled). Proved for the "
+                      "importer's de-duplication, for every list of events with distinct ids and every starting state: a clean pass leaves "
+                      "every event absorbed whatever an earlier failed run left behind (clean_pass_absorbs_all), a second import of the same "
+                      "tracker state creates no operation (import_idempotent), after the tracker grew the next import creates exactly what a "
+                      "pass over the new events creates (import_incremental), the cursor moves only when no error was relayed (cursor_rule); "
+                      "shared ids across event kinds drop events (shared_ids_drop_events, kernel-checked witness of the known finding). "
+                      "Regenerated on every run: the cursor write sits inside `if noError`, every fetcher reports a failing request and "
+                      "stops (gen_errors_reported), every event kind that creates an operation is looked up first and titles are cleaned "
+                      "(gen_events_deduplicated). A simulated GitLab serves generated histories to the real importer.",
+        "level_note": "Trusted: Lean kernel, extractor, harness including the simulated GitLab API (issues, notes, label and state events, "
+                      "users, pagination, failures). The GitHub, Jira and Launchpad importers are not covered. Texts in the model are texts "
+                      "after text.Cleanup. Fixed in /repo: silent failure of the issue listing, nil response dereference, label events "
+                      "imported again, uncleaned titles. Known: id spaces shared across event kinds.",
+        "required_theorems": ["clean_pass_absorbs_all", "import_idempotent", "import_incremental", "cursor_rule", "step_absorbs", "step_absorbed",
+                              "shared_ids_drop_events", "gen_errors_reported", "gen_events_deduplicated"],
+        "slices": ["C16"],
+        "timeout": {"quick": 2400, "thorough": 7200},
+        "rule": "an in-process HTTP server speaking the part of the GitLab API the importer uses serves generated trackers (issues, comments "
+                "and their edits, title changes, description changes, label and state events, ignored system notes, ghost users, hostile "
+                "text; pages of 3); a mock repository with a gitlab bridge imports in rounds (resume, resume, re-import everything, …) "
+                "with the tracker growing in between; after each round the bugs are compared with the tracker, each round is repeated "
+                "(no new operation), and per issue the local state, the events and the number of new operations go to the model; then "
+                "a failure (403; thorough: 500 from there on) is injected at every request index of a round: an error must be reported, "
+                "the cursor must stay, and a clean run must end where a never-failing import ends; connections dropped from a request on; "
+                "one run with id spaces shared across notes/label/state events (known finding); non-trivial/distinct = distinct round logs and failure points",
+        "trusted_base": [KERNEL, TIE, "model: GitBugModel.Import (step, pass, cursorAfter)", "the simulated GitLab API of the harness"],
+        "assumptions": ["event ids are distinct within an issue (Nodup); the case where they are not is the known finding"],
+        "gen_facts": ["Gen.Bridge.cursorGuarded, fetchErrors, eventCases, titleCleaned"],
+    },
 }
